@@ -15,7 +15,7 @@ sys.path.insert(0, os.path.dirname(os.path.dirname(os.path.abspath(__file__))))
 from vlib import *
 
 OVERLAY = {"store/verif_store_test.go": "store/verif_store_test.go"}
-INTERNAL = ("TypeOK", "OnlyOwnCached", "MemoOkMeansCached", "TrackedPositive")
+INTERNAL = ("TypeOK", "OnlyOwnCached", "MemoOkMeansCached", "TrackedPositive", "NoCancelRemembered")
 IMAGES = {"Img1x1": {"r1": ["a"]},
           "Img1x2": {"r1": ["a", "b"]},
           "Img2x2": {"r1": ["a", "b"], "r2": ["c", "d"]},
@@ -82,7 +82,7 @@ def short(e):
         return "Reset"
     s = "%s(%s,%s" % (e["ev"], e.get("r"), e.get("t"))
     if e["ev"] == "Lookup":
-        s += "," + e.get("kind", "?") + ("" if not e.get("fail") else ",fail=" + "+".join(e["fail"]))
+        s += "," + e.get("kind", "?") + ("" if not e.get("fail") else ",fail=" + "+".join(e["fail"])) + (",CANCELLED" if e.get("cancel") else "")
     s += ")=" + str(e.get("res"))
     if "n" in e:
         s += "/%d" % e["n"]
@@ -186,7 +186,8 @@ def check_m(run, thorough):
     PF = ["CountNonNegative", "HeldWhileCached", "HandlesMatchLayers", "NeverDoneWhileUsed", "UnknownDigestFails",
           "LookupSucceedsIffTocInImage", "SuccessMeansCached", "LastReleaseDropsBookkeeping", "NextLookupResolvesAgain"]
     parallel(run, [(lambda off=off: run.tlc_negctl("Store", "Store_mc_1x2.cfg", {off: "FALSE"}, PF, drop=INTERNAL, workers=2))
-                   for off in ("DeleteInnerCounter", "ForgetMemoOfReleased", "ResetMemoAtLastRelease", "DropOnlyAtZero", "DoneDuplicate")], 5)
+                   for off in ("DeleteInnerCounter", "ForgetMemoOfReleased", "ResetMemoAtLastRelease", "DropOnlyAtZero", "DoneDuplicate",
+                               "ResolveDetached")], 4)
     if thorough:
         # the pinned code (both repaired statements off) and the non-property
         run.tlc_negctl("Store", "Store_mc_1x2.cfg", {"DeleteInnerCounter": "FALSE", "ForgetMemoOfReleased": "FALSE"}, PF, drop=INTERNAL)
@@ -196,40 +197,46 @@ def check_m(run, thorough):
 
 def check_rt(run, thorough):
     # ---------------------------------------------------------------- R
-    gens = [("mgr", "Img1x2", dict(MaxCnt="2" if thorough else "1"), None),
-            ("fuse", "Img1x2", dict(Fuse="TRUE", Errors="FALSE", MaxCnt="1", Kinds='{"diff"}'), None),
-            # several uses of one layer (counts up to 3) on the smallest image, manager and fuse
-            ("mgr", "Img1x1", dict(MaxCnt="3"), None),
-            ("fuse", "Img1x1", dict(Fuse="TRUE", MaxCnt="2", Kinds='{"diff", "blob"}'), None)]
+    gens = [("mgr", "Img1x2", dict(MaxCnt="1"), None),
+            ("fuse", "Img1x2", dict(Fuse="TRUE", Errors="FALSE", MaxCnt="1", Kinds='{"diff"}'), None)]
     if thorough:
-        gens += [("mgr", "Img2x1", dict(MaxCnt="1", AllTargets="TRUE"), None),
-                 ("fuse", "Img1x2", dict(Fuse="TRUE", Errors="FALSE", MaxCnt="1", Kinds='{"diff", "blob", "info"}'), 600)]
+        # several uses of one layer (counts up to 3) with registry failures and cancelled callers, two images, all lookup kinds
+        gens += [("mgr", "Img1x1", dict(MaxCnt="3"), None),
+                 ("fuse", "Img1x1", dict(Fuse="TRUE", MaxCnt="2", Kinds='{"diff", "blob"}'), None),
+                 ("mgr", "Img2x1", dict(MaxCnt="1", AllTargets="TRUE"), None),
+                 ("fuse", "Img1x2", dict(Fuse="TRUE", Errors="FALSE", MaxCnt="1", Kinds='{"diff", "blob", "info"}'), 400)]
+    else:
+        # several uses of one layer (counts up to 2) on the smallest image, manager and fuse
+        gens += [("mgr", "Img1x1", dict(MaxCnt="2", Errors="FALSE", Cancels="FALSE"), None),
+                 ("fuse", "Img1x1", dict(Fuse="TRUE", MaxCnt="2", Errors="FALSE", Cancels="FALSE", Kinds='{"diff", "blob"}'), None)]
     jobs = []
     exhaustive = True
+    graphs = {}
+    parallel(run, [(lambda i=i, g=g: graphs.__setitem__(i, run.tlc_edges("StoreGen", cfg("Store_gen_mgr.cfg", g[1], **g[2]), timeout=1800)))
+                   for i, g in enumerate(gens)], 4)
     for i, (mode, img, kv, cap) in enumerate(gens):
-        inits, edges = run.tlc_edges("StoreGen", cfg("Store_gen_mgr.cfg", img, **kv), timeout=1800)
-        walks, st = edge_cover(inits, edges, maxlen=80, rng=run.rng, extra_walks=150 if thorough else 10, max_walks=cap)
+        inits, edges = graphs[i]
+        walks, st = edge_cover(inits, edges, maxlen=80, rng=run.rng, extra_walks=100 if thorough else 10, max_walks=cap)
         log("[walks] %s %s %s: %s" % (mode, img, kv, st))
-        if st["covered"] != st["edges"]:
-            if cap is None:
-                exhaustive = False
+        if st["covered"] != st["edges"] and cap is None:
+            exhaustive = False
         out = os.path.join(run.scratch, "replay_%d_%s.ndjson" % (i, mode))
         jobs.append({"images": IMAGES[img], "img": img, "mode": mode, "out": out,
-                     "walks": [[{k: v for k, v in s.items() if k in ("act", "r", "t", "kind", "fail")} for s in w] for w in walks]})
+                     "walks": [[{k: v for k, v in s.items() if k in ("act", "r", "t", "kind", "fail", "cancel")} for s in w] for w in walks]})
         run.cov["stages"].append(dict(stage="edge-cover", mode=mode, images=img, consts=kv, capped=cap is not None, **st))
     inp = os.path.join(run.scratch, "walks.json")
     write_json(inp, jobs)
     race = os.path.join(run.scratch, "race")
     rc, out = run.go_driver("", "./store/", OVERLAY, "^TestVerifStore(Replay|Race)$",
                             env={"VERIF_IN": inp, "VERIF_RACE_OUT": race + "_mgr.ndjson", "VERIF_RACE_MODE": "mgr",
-                                 "VERIF_RACE_TRACES": "300" if thorough else "40"}, timeout=2400)
+                                 "VERIF_RACE_TRACES": "200" if thorough else "30"}, timeout=5400)
     if rc != 0:
         # racing lookups are part of the property's quantifier: a race report on the state they share is reported
         run.violation("datarace:mgr:" + race_signature(out), "data race reported under racing lookups on one image (manager calls): " +
                       race_signature(out), {"log": out[out.find("WARNING: DATA RACE"):][:6000]})
     rc, out = run.go_driver("", "./store/", OVERLAY, "^TestVerifStoreRace$",
                             env={"VERIF_RACE_OUT": race + "_fuse.ndjson", "VERIF_RACE_MODE": "fuse",
-                                 "VERIF_RACE_TRACES": "300" if thorough else "40"}, timeout=2400)
+                                 "VERIF_RACE_TRACES": "200" if thorough else "30"}, timeout=5400)
     if rc != 0:
         run.violation("datarace:fuse:" + race_signature(out), "data race reported under racing lookups on one image (fuse handlers): " +
                       race_signature(out), {"log": out[out.find("WARNING: DATA RACE"):][:6000]})
